@@ -1,6 +1,6 @@
 import MJ.Model.BlocksSpec
 /-!
-# Simulation lemmas: the block-stack driver against the substitution spec (core fragment)
+# Simulation lemmas: the block-stack driver against the specification
 -/
 set_option linter.unusedSimpArgs false
 namespace MJ.Blocks
@@ -13,245 +13,555 @@ instance instDecEqExcept {ε α : Type} [DecidableEq ε] [DecidableEq α] : Deci
     | .ok _, .error _ => isFalse (by intro e; cases e)
     | .error _, .ok _ => isFalse (by intro e; cases e)
 
-def lift2 (r : Except Err (List String)) (st : St) : Res :=
-  match r with | .ok o => .ok (o, st) | .error e => .error e
+/-- a spec result as a driver result: same output, the driver's state with the spec's frames -/
+def liftS (r : SRes) (st : St) : Res :=
+  match r with
+  | .ok (o, fs) => .ok (o, { st with frames := fs })
+  | .error e => .error e
+
+/-- output and frames of a driver result -/
+def outFr (r : Res) : SRes :=
+  match r with
+  | .ok (o, st) => .ok (o, st.frames)
+  | .error e => .error e
 
 /-- output of the spec for a prefix, followed by the driver on the remaining items -/
-def thenSteps (r : Except Err (List String))
-    (k : Except Err (List String × St × Option (List Item))) :
+def thenStepsF (r : SRes)
+    (k : List Frame → Except Err (List String × St × Option (List Item))) :
     Except Err (List String × St × Option (List Item)) :=
   match r with
   | .error e => .error e
-  | .ok o =>
-    match k with
+  | .ok (o, fs) =>
+    match k fs with
     | .error e => .error e
     | .ok (o', st', p) => .ok (o ++ o', st', p)
 
 /-- the block stacks hold exactly the definitions `D`, the definition being rendered is level
-    `k` of block `cur`, and every block that may still be entered has its cursor at 0 -/
-structure Good (D : Nat → List (List Item)) (cur : Option Nat) (k : Nat) (st : St) : Prop where
+    `k` of block `cur`, and (where block references are allowed) every block that may still be
+    entered has its cursor at 0 -/
+structure Good (D : Nat → List (List Item)) (cur : Option Nat) (blk : Bool) (k : Nat) (st : St) : Prop where
   blocks : st.blocks = D
   level : ∀ n, cur = some n → st.depth n = k ∧ k < (D n).length
-  above : ∀ m, (∀ n, cur = some n → n < m) → st.depth m = 0
+  above : blk = true → ∀ m, (∀ n, cur = some n → n < m) → st.depth m = 0
+
+theorem Good.setFrames {D : Nat → List (List Item)} {cur : Option Nat} {blk : Bool} {k : Nat} {st : St}
+    (h : Good D cur blk k st) (fs : List Frame) : Good D cur blk k { st with frames := fs } :=
+  ⟨h.blocks, h.level, h.above⟩
 
 def WF (D : Nat → List (List Item)) : Prop :=
-  ∀ (n k : Nat) (body : List Item), (D n)[k]? = some body → bodyOK n body = true
+  ∀ (n k : Nat) (body : List Item), (D n)[k]? = some body → itemsOK (some n) true body = true
 
-def okFor (cur : Option Nat) : Item → Bool
-  | .text _ | .super | .extends false _ => true
-  | .callBlock m => match cur with
-    | some n => decide (n < m)
-    | none => true
-  | _ => false
+/-- state of the driver after it loaded `chain` (most-derived template first) -/
+structure ChainSt (env : Env) (chain : List Nat) (st : St) : Prop where
+  blocks : st.blocks = defs env chain
+  depth : ∀ m, st.depth m = 0
+  loaded : ∀ t, t ∈ st.loaded ↔ t ∈ chain.tail
 
 theorem take_append_one {α : Type} (l : List α) (x : α) : (l ++ [x]).take l.length = l := by
   simp
 
-/-- `call_block` in a `Good` state: a block that may be entered has its cursor at 0, so the
-    *most-derived* definition is rendered, and the state is unchanged afterwards -/
-theorem callBlock_good (env : Env) (ctx : Frame) (D : Nat → List (List Item)) (f : Nat)
-    (hP : ∀ n k body st, (D n)[k]? = some body → Good D (some n) k st →
-      evalImpl env ctx f (some n) false body st = lift2 (specBody D f n k) st)
-    (cur : Option Nat) (k m : Nat) (st : St) (hg : Good D cur k st)
-    (hm : ∀ n, cur = some n → n < m) :
-    callBlock (evalImpl env ctx f) false m st =
-      if (D m).isEmpty then .error [.unknownBlock] else lift2 (specBody D f m 0) st := by
-  have hd0 : st.depth m = 0 := hg.above m hm
-  unfold callBlock
+/-- driver = spec one nesting level further down, for every well-formed `D` -/
+structure Hyp (env : Env) (ctx : Frame) (f : Nat) : Prop where
+  list : ∀ (D : Nat → List (List Item)), WF D → ∀ (cur : Option Nat) (blk : Bool) (k : Nat)
+      (rcur : Option Nat) (disc ext : Bool) (outer : Nat) (items : List Item) (st : St),
+      (∀ n, cur = some n → rcur = some n) → (cur.isSome = true → blk = true) →
+      itemsOK cur blk items = true → Good D cur blk k st →
+      evalImpl env ctx f rcur disc ext outer items st =
+        liftS ((specAll env ctx f).list D (cur.map (fun n => (n, k))) disc ext outer items st.frames) st
+  chain : ∀ (chain : List Nat) (layout : List Item) (st : St) (rcur : Option Nat) (disc : Bool) (outer : Nat),
+      ChainSt env chain st → layoutOK layout = true → chain ≠ [] →
+      outFr (evalImpl env ctx f rcur disc false outer layout st) =
+        (specAll env ctx f).chain chain disc outer layout st.frames
+
+theorem Hyp.body {env : Env} {ctx : Frame} {f : Nat} (h : Hyp env ctx f)
+    (D : Nat → List (List Item)) (hwf : WF D) (n k : Nat) (body : List Item) (disc : Bool) (outer : Nat)
+    (st : St) (hb : (D n)[k]? = some body) (hg : Good D (some n) true k st) :
+    evalImpl env ctx f (some n) disc false outer body st =
+      liftS ((specAll env ctx f).body D n k disc outer st.frames) st := by
+  cases f with
+  | zero => simp [evalImpl, specAll, liftS]
+  | succ f =>
+    have := h.list D hwf (some n) true k (some n) disc false outer body st (fun _ h => h) (fun _ => rfl) (hwf n k body hb) hg
+    rw [this]
+    simp only [specAll, Option.map_some, hb]
+
+theorem callBlock_sim {env : Env} {ctx : Frame} {f : Nat} (h : Hyp env ctx f)
+    (D : Nat → List (List Item)) (hwf : WF D) (cur : Option Nat) (k m : Nat) (disc : Bool) (outer : Nat)
+    (st : St) (hg : Good D cur true k st) (hm : ∀ n, cur = some n → n < m) :
+    callBlock (evalImpl env ctx f) disc outer m st =
+      liftS (specBlock (specAll env ctx f) D disc outer m st.frames) st := by
+  have hd0 : st.depth m = 0 := hg.above rfl m hm
+  unfold callBlock specBlock
   rw [show st.blocks m = D m from by rw [hg.blocks]]
   cases hDm : D m with
-  | nil => simp
+  | nil => simp [liftS]
   | cons b bs =>
-    simp only [hd0, List.getElem?_cons_zero, List.isEmpty_cons, Bool.false_eq_true, if_false]
-    have hb : (D m)[0]? = some b := by rw [hDm]; rfl
-    have hg' : Good D (some m) 0 { st with frames := st.frames ++ [[]] } := by
-      refine ⟨hg.blocks, ?_, ?_⟩
-      · intro n hn; cases hn; exact ⟨hd0, by rw [hDm]; simp⟩
-      · intro m' hm'
-        apply hg.above
-        intro n hn
-        exact Nat.lt_trans (hm n hn) (hm' m rfl)
-    rw [hP m 0 b _ hb hg']
-    cases specBody D f m 0 with
-    | error e => simp [lift2]
-    | ok o => simp only [lift2, take_append_one]
+    simp only [hd0, List.getElem?_cons_zero]
+    generalize ((b :: bs).length == 1 && isRequired b) = c
+    cases c with
+    | true => simp [liftS]
+    | false =>
+      simp only [Bool.false_eq_true, if_false]
+      cases hpf : pushFails outer st.frames with
+      | true => simp [liftS]
+      | false =>
+        simp only [Bool.false_eq_true, if_false]
+        have hb : (D m)[0]? = some b := by rw [hDm]; rfl
+        have hg' : Good D (some m) true 0 { st with frames := st.frames ++ [[]] } := by
+          refine ⟨hg.blocks, ?_, ?_⟩
+          · intro n hn; cases hn; exact ⟨hd0, by rw [hDm]; simp⟩
+          · intro _ m' hm'
+            apply hg.above rfl
+            intro n hn
+            exact Nat.lt_trans (hm n hn) (hm' m rfl)
+        rw [h.body D hwf m 0 b disc outer _ hb hg']
+        simp only []
+        cases (specAll env ctx f).body D m 0 disc outer (st.frames ++ [[]]) with
+        | error e => simp [liftS]
+        | ok r => obtain ⟨o, fs⟩ := r; simp [liftS]
 
-/-- `perform_super` in a `Good` state at level `k` of block `n`: renders level `k + 1` (errors
-    wrapped in `EvalBlock`) and puts the cursor back; no level `k + 1` is an error -/
-theorem performSuper_good (env : Env) (ctx : Frame) (D : Nat → List (List Item)) (f : Nat)
-    (hP : ∀ n k body st, (D n)[k]? = some body → Good D (some n) k st →
-      evalImpl env ctx f (some n) false body st = lift2 (specBody D f n k) st)
-    (n k : Nat) (st : St) (hg : Good D (some n) k st) :
-    performSuper (evalImpl env ctx f) (some n) false st =
-      if k + 1 < (D n).length then lift2 (liftErr .evalBlock (specBody D f n (k + 1))) st
-      else .error [.invalidOperation] := by
-  unfold performSuper
+theorem performSuper_sim {env : Env} {ctx : Frame} {f : Nat} (h : Hyp env ctx f)
+    (D : Nat → List (List Item)) (hwf : WF D) (n k : Nat) (disc : Bool) (outer : Nat)
+    (st : St) (hg : Good D (some n) true k st) :
+    performSuper (evalImpl env ctx f) (some n) disc outer st =
+      liftS (specSuper (specAll env ctx f) D (some (n, k)) disc outer st.frames) st := by
+  unfold performSuper specSuper
   obtain ⟨hdn, hk⟩ := hg.level n rfl
   simp only []
   rw [show st.blocks n = D n from by rw [hg.blocks], hdn]
   by_cases hlt : k + 1 < (D n).length
   · simp only [hlt, if_true]
-    obtain ⟨body, hbody⟩ : ∃ body, (D n)[k + 1]? = some body := ⟨(D n)[k + 1], by simp [hlt]⟩
-    simp only [hbody]
-    have hg' : Good D (some n) (k + 1)
-        { st with depth := setAt st.depth n (k + 1), frames := st.frames ++ [[]] } := by
-      refine ⟨hg.blocks, ?_, ?_⟩
-      · intro n' hn'; cases hn'; exact ⟨by simp [setAt], hlt⟩
-      · intro m hm'
-        have : n < m := hm' n rfl
-        have hne : m ≠ n := by omega
-        simp only [setAt, hne, if_false]
-        exact hg.above m (by intro n' hn'; cases hn'; exact this)
-    rw [hP n (k + 1) body _ hbody hg']
-    cases specBody D f n (k + 1) with
-    | error e => simp [lift2, liftErr]
-    | ok o =>
-      have hset : setAt (setAt st.depth n (k + 1)) n (setAt st.depth n (k + 1) n - 1) = st.depth := by
-        funext m; unfold setAt; by_cases h : m = n
-        · subst h; simp [hdn]
-        · simp [h]
-      simp only [lift2, liftErr, take_append_one, hset]
-  · simp [hlt]
+    cases hpf : pushFails outer st.frames with
+    | true => simp [liftS]
+    | false =>
+      simp only [Bool.false_eq_true, if_false]
+      obtain ⟨body, hbody⟩ : ∃ body, (D n)[k + 1]? = some body := ⟨(D n)[k + 1], by simp [hlt]⟩
+      simp only [hbody]
+      have hg' : Good D (some n) true (k + 1)
+          { st with depth := setAt st.depth n (k + 1), frames := st.frames ++ [[]] } := by
+        refine ⟨hg.blocks, ?_, ?_⟩
+        · intro n' hn'; cases hn'; exact ⟨by simp [setAt], hlt⟩
+        · intro _ m hm'
+          have : n < m := hm' n rfl
+          have hne : m ≠ n := by omega
+          simp only [setAt, hne, if_false]
+          exact hg.above rfl m (by intro n' hn'; cases hn'; exact this)
+      rw [h.body D hwf n (k + 1) body disc outer _ hbody hg']
+      simp only []
+      cases (specAll env ctx f).body D n (k + 1) disc outer (st.frames ++ [[]]) with
+      | error e => simp [liftS]
+      | ok r =>
+        obtain ⟨o, fs⟩ := r
+        have hset : setAt (setAt st.depth n (k + 1)) n (setAt st.depth n (k + 1) n - 1) = st.depth := by
+          funext m; unfold setAt; by_cases h : m = n
+          · subst h; simp [hdn]
+          · simp [h]
+        simp only [liftS, hset]
+  · simp [hlt, liftS]
 
-/-- core items in front of arbitrary further items: the driver emits what the spec says for the
-    prefix and continues in the *same* state (block stacks, cursors, loaded set, frames) -/
-theorem sim_prefix (env : Env) (ctx : Frame) (D : Nat → List (List Item)) (f : Nat)
-    (hP : ∀ n k body st, (D n)[k]? = some body → Good D (some n) k st →
-      evalImpl env ctx f (some n) false body st = lift2 (specBody D f n k) st)
-    (cur : Option Nat) (k : Nat) (items : List Item) (hit : items.all (okFor cur) = true)
-    (ys : List Item) (st : St) (hg : Good D cur k st) :
-    stepItems ⟨env, ctx, cur, false⟩ (evalImpl env ctx f) none (items ++ ys) st
-      = thenSteps (specItems D (specBody D f) (cur.map (fun n => (n, k))) items)
-          (stepItems ⟨env, ctx, cur, false⟩ (evalImpl env ctx f) none ys st) := by
-  induction items with
+theorem initChainSt (env : Env) (t : Nat) (T : Template) (hT : env[t]? = some T) (st : St) :
+    ChainSt env [t] { st with blocks := prepare T.blocks, depth := fun _ => 0, loaded := [] } := by
+  refine ⟨?_, fun _ => rfl, fun x => by simp⟩
+  funext n
+  simp only [prepare, defs, List.filterMap_cons, List.filterMap_nil, blockOf, hT]
+  cases lookupBlock n T.blocks <;> rfl
+
+theorem include_sim {env : Env} {ctx : Frame} {f : Nat} (h : Hyp env ctx f) (henv : EnvOK env)
+    (rcur : Option Nat) (disc ign : Bool) (outer : Nat) (names : List Nat) (tried : Bool) (st : St) :
+    performInclude env (evalImpl env ctx f) rcur disc ign outer names tried st =
+      liftS (specInclude env (specAll env ctx f) disc ign outer names tried st.frames) st := by
+  induction names generalizing tried with
   | nil =>
-    simp only [List.nil_append, specItems, thenSteps]
-    cases stepItems ⟨env, ctx, cur, false⟩ (evalImpl env ctx f) none ys st with
+    simp only [performInclude, specInclude]
+    split <;> simp [liftS]
+  | cons t rest ih =>
+    simp only [performInclude, specInclude]
+    cases hT : env[t]? with
+    | none => exact ih true
+    | some T =>
+      simp only []
+      by_cases hd : outer + INCLUDE_COST + st.frames.length > LIMIT
+      · simp [hd, liftS]
+      · simp only [hd, if_false]
+        have hlay : layoutOK T.layout = true := by
+          have := henv T (List.mem_of_getElem? hT)
+          simp only [templateOK, Bool.and_eq_true] at this
+          exact this.1
+        have hc := h.chain [t] T.layout
+          { st with blocks := prepare T.blocks, depth := fun _ => 0, loaded := [] } rcur disc
+          (outer + INCLUDE_COST) (initChainSt env t T hT st) hlay (by simp)
+        simp only [] at hc
+        rw [← hc]
+        cases evalImpl env ctx f rcur disc false (outer + INCLUDE_COST) T.layout
+          { st with blocks := prepare T.blocks, depth := fun _ => 0, loaded := [] } with
+        | error e => simp [outFr, liftS]
+        | ok r => obtain ⟨o, st'⟩ := r; simp [outFr, liftS]
+
+theorem loop_sim (run : St → Res) (run' : List Frame → SRes) (st : St)
+    (hrun : ∀ (fs : List Frame), run { st with frames := fs } = liftS (run' fs) { st with frames := fs })
+    (v : Nat) (vals : List String) (fl : Nat) :
+    loopItems run v vals fl st = liftS (specLoop run' v vals fl st.frames) st := by
+  unfold loopItems specLoop
+  have key : ∀ (acc : Res) (acc' : SRes), acc = liftS acc' st →
+      vals.foldl (fun (acc : Res) val =>
+        match acc with
+        | .error e => .error e
+        | .ok (o, s) =>
+          match run { s with frames := s.frames.take fl ++ [[(v, .str val)]] } with
+          | .error e => .error e
+          | .ok (o', s') => .ok (o ++ o', s')) acc =
+      liftS (vals.foldl (fun (acc : SRes) val =>
+        match acc with
+        | .error e => .error e
+        | .ok (o, s) =>
+          match run' (s.take fl ++ [[(v, .str val)]]) with
+          | .error e => .error e
+          | .ok (o', s') => .ok (o ++ o', s')) acc') st := by
+    induction vals with
+    | nil => intro acc acc' h; simpa using h
+    | cons val rest ih =>
+      intro acc acc' hacc
+      simp only [List.foldl_cons]
+      apply ih
+      subst hacc
+      cases acc' with
+      | error e => simp [liftS]
+      | ok r =>
+        obtain ⟨o, fs⟩ := r
+        simp only [liftS]
+        have := hrun (fs.take fl ++ [[(v, .str val)]])
+        rw [this]
+        cases run' (fs.take fl ++ [[(v, .str val)]]) with
+        | error e => simp [liftS]
+        | ok r' => obtain ⟨o', fs'⟩ := r'; simp [liftS]
+  exact key _ _ (by simp [liftS])
+
+theorem cont_finish (R' : SRes) (st : St)
+    (G : St → Except Err (List String × St × Option (List Item))) (S : List Frame → SRes)
+    (K : List Frame → Except Err (List String × St × Option (List Item)))
+    (hG : ∀ fs, G { st with frames := fs } = thenStepsF (S fs) K) :
+    Res.andThen (liftS R' st) G =
+      thenStepsF (match R' with
+        | .error e => .error e
+        | .ok (o, fs') =>
+          match S fs' with
+          | .error e => .error e
+          | .ok (o', fs'') => .ok (o ++ o', fs'')) K := by
+  cases R' with
+  | error e => rfl
+  | ok r =>
+    obtain ⟨o, fs'⟩ := r
+    simp only [liftS, Res.andThen, hG fs']
+    cases S fs' with
+    | error e => rfl
+    | ok r2 =>
+      obtain ⟨o', fs''⟩ := r2
+      simp only [thenStepsF]
+      cases K fs'' with
+      | error e => rfl
+      | ok r3 => obtain ⟨o3, st3, p3⟩ := r3; simp
+
+theorem sim_prefix {env : Env} {ctx : Frame} {f : Nat} (h : Hyp env ctx f) (henv : EnvOK env)
+    (D : Nat → List (List Item)) (hwf : WF D)
+    (cur : Option Nat) (blk : Bool) (k : Nat) (rcur : Option Nat) (disc0 ext0 : Bool) (outer : Nat)
+    (parent : Option (List Item))
+    (hrc : ∀ n, cur = some n → rcur = some n) (hblk : cur.isSome = true → blk = true)
+    (items : List Item)
+    (hit : ∀ it ∈ items, itemOK cur blk it = true ∨ (parent.isSome = true ∧ isExtends it = true))
+    (ys : List Item) (st : St) (hg : Good D cur blk k st) :
+    stepItems ⟨env, ctx, rcur, disc0, ext0, outer⟩ (evalImpl env ctx f) parent (items ++ ys) st =
+      thenStepsF (specItems env ctx (specAll env ctx f) D (cur.map (fun n => (n, k)))
+          (disc0 || parent.isSome) (ext0 || parent.isSome) outer items st.frames)
+        (fun fs => stepItems ⟨env, ctx, rcur, disc0, ext0, outer⟩ (evalImpl env ctx f) parent ys
+          { st with frames := fs }) := by
+  induction items generalizing st with
+  | nil =>
+    simp only [List.nil_append, specItems, thenStepsF]
+    cases stepItems ⟨env, ctx, rcur, disc0, ext0, outer⟩ (evalImpl env ctx f) parent ys st with
     | error e => rfl
     | ok r => obtain ⟨o, st', p⟩ := r; simp
   | cons it rest ih =>
-    simp only [List.all_cons, Bool.and_eq_true] at hit
-    have ih := ih hit.2
-    generalize hK : stepItems ⟨env, ctx, cur, false⟩ (evalImpl env ctx f) none ys st = K at ih
+    have hit1 := hit it (by simp)
+    have hG : ∀ fs, (fun st' => stepItems ⟨env, ctx, rcur, disc0, ext0, outer⟩ (evalImpl env ctx f) parent (rest ++ ys) st')
+          { st with frames := fs } =
+        thenStepsF (specItems env ctx (specAll env ctx f) D (cur.map (fun n => (n, k)))
+            (disc0 || parent.isSome) (ext0 || parent.isSome) outer rest fs)
+          (fun fs => stepItems ⟨env, ctx, rcur, disc0, ext0, outer⟩ (evalImpl env ctx f) parent ys
+            { st with frames := fs }) := by
+      intro fs
+      exact ih (fun it hm => hit it (List.mem_cons_of_mem _ hm)) { st with frames := fs } (hg.setFrames fs)
     simp only [List.cons_append]
     cases it with
-    | text s =>
-      simp only [stepItems, specItems, Res.andThen, ih]
-      cases specItems D (specBody D f) (cur.map fun n => (n, k)) rest with
-      | error e => simp [thenSteps]
-      | ok o => cases K with
-        | error e => simp [thenSteps]
-        | ok r => obtain ⟨o', st', p⟩ := r; simp [thenSteps]
     | callBlock m =>
-      have hm : ∀ n, cur = some n → n < m := by
-        intro n hn; subst hn; simpa [okFor] using hit.1
-      simp only [stepItems, specItems, Option.isSome_none, Bool.or_false, Bool.false_eq_true, if_false]
-      rw [callBlock_good env ctx D f hP cur k m st hg hm]
-      cases hDm : (D m).isEmpty with
-      | true => simp [Res.andThen, thenSteps]
+      simp only [stepItems, specItems]
+      cases hc : (ext0 || parent.isSome || (disc0 || parent.isSome)) with
+      | true =>
+        simp only [if_true]
+        exact cont_finish (.ok ([], st.frames)) st _ _ _ hG
       | false =>
         simp only [Bool.false_eq_true, if_false]
-        cases specBody D f m 0 with
-        | error e => simp [lift2, Res.andThen, thenSteps]
-        | ok o =>
-          simp only [lift2, Res.andThen, ih]
-          cases specItems D (specBody D f) (cur.map fun n => (n, k)) rest with
-          | error e => simp [thenSteps]
-          | ok o2 => cases K with
-            | error e => simp [thenSteps]
-            | ok r => obtain ⟨o', st', p⟩ := r; simp [thenSteps]
+        have hp : parent.isSome = false := by
+          cases hps : parent.isSome <;> simp_all
+        have hok : itemOK cur blk (.callBlock m) = true := by
+          rcases hit1 with h1 | h1
+          · exact h1
+          · rw [hp] at h1; cases h1.1
+        simp only [itemOK, Bool.and_eq_true] at hok
+        obtain ⟨hb, hrank⟩ := hok
+        subst hb
+        have hm : ∀ n, cur = some n → n < m := by
+          intro n hn; subst hn; simpa using hrank
+        rw [callBlock_sim h D hwf cur k m _ outer st hg hm]
+        exact cont_finish _ st _ _ _ hG
     | super =>
-      simp only [stepItems, specItems, Option.isSome_none, Bool.or_false]
-      cases cur with
-      | none => simp [performSuper, Res.andThen, thenSteps]
-      | some n =>
-        simp only [Option.map_some] at ih ⊢
-        rw [performSuper_good env ctx D f hP n k st hg]
-        by_cases hlt : k + 1 < (D n).length
-        · simp only [hlt, if_true]
-          cases liftErr .evalBlock (specBody D f n (k + 1)) with
-          | error e => simp [lift2, Res.andThen, thenSteps]
-          | ok o =>
-            simp only [lift2, Res.andThen, ih]
-            cases specItems D (specBody D f) (some (n, k)) rest with
-            | error e => simp [thenSteps]
-            | ok o2 => cases K with
-              | error e => simp [thenSteps]
-              | ok r => obtain ⟨o', st', p⟩ := r; simp [thenSteps]
-        · simp [hlt, Res.andThen, thenSteps]
-    | «extends» exec t =>
-      cases exec with
-      | true => simp [okFor] at hit
+      simp only [stepItems, specItems]
+      have hok : itemOK cur blk .super = true := by
+        rcases hit1 with h1 | h1
+        · exact h1
+        · simp [isExtends] at h1
+      simp only [itemOK] at hok
+      obtain ⟨n, rfl⟩ := Option.isSome_iff_exists.1 hok
+      have hb := hblk rfl; subst hb
+      have hr := hrc n rfl; subst hr
+      simp only [Option.map_some] at hG ⊢
+      rw [performSuper_sim h D hwf n k _ outer st hg]
+      exact cont_finish _ st _ _ _ hG
+    | setSuper v =>
+      simp only [stepItems, specItems]
+      have hok : itemOK cur blk (.setSuper v) = true := by
+        rcases hit1 with h1 | h1
+        · exact h1
+        · simp [isExtends] at h1
+      simp only [itemOK] at hok
+      obtain ⟨n, rfl⟩ := Option.isSome_iff_exists.1 hok
+      have hb := hblk rfl; subst hb
+      have hr := hrc n rfl; subst hr
+      simp only [Option.map_some] at hG ⊢
+      rw [performSuper_sim h D hwf n k false outer st hg]
+      cases specSuper (specAll env ctx f) D (some (n, k)) false outer st.frames with
+      | error e => rfl
+      | ok r =>
+        obtain ⟨o, fs'⟩ := r
+        simp only [liftS]
+        exact cont_finish (.ok ([], store fs' v (.str (String.join o)))) st _ _ _ hG
+    | setSelf v m =>
+      simp only [stepItems, specItems]
+      cases hc : (ext0 || parent.isSome) with
+      | true =>
+        simp only [if_true]
+        rw [hc] at hG
+        exact cont_finish (.ok ([], store st.frames v (.str ""))) st _ _ _ hG
       | false =>
-        simp only [stepItems, specItems, Res.andThen, ih, Bool.not_false, if_true]
-        cases specItems D (specBody D f) (cur.map fun n => (n, k)) rest with
-        | error e => simp [thenSteps]
-        | ok o2 => cases K with
-          | error e => simp [thenSteps]
-          | ok r => obtain ⟨o', st', p⟩ := r; simp [thenSteps]
-    | _ => simp [okFor] at hit
-
-theorem bodyOK_okFor (n : Nat) (body : List Item) (h : bodyOK n body = true) :
-    body.all (okFor (some n)) = true := by
-  unfold bodyOK at h
-  rw [List.all_eq_true] at h ⊢
-  intro it hit
-  have := h it hit
-  cases it <;> simp_all [Item.isBody, okFor]
-
-/-- a block body: the driver (in a `Good` state) renders the spec's body and restores the state -/
-theorem sim_body (env : Env) (ctx : Frame) (D : Nat → List (List Item)) (hwf : WF D) :
-    ∀ f n k body st, (D n)[k]? = some body → Good D (some n) k st →
-      evalImpl env ctx f (some n) false body st = lift2 (specBody D f n k) st := by
-  intro f
-  induction f with
-  | zero => intro n k body st _ _; simp [evalImpl, specBody, lift2]
-  | succ f ih =>
-    intro n k body st hb hg
-    have h := sim_prefix env ctx D f ih (some n) k body (bodyOK_okFor n body (hwf n k body hb)) [] st hg
-    simp only [List.append_nil, Option.map_some, stepItems] at h
-    simp only [evalImpl, h, specBody, hb]
-    cases specItems D (specBody D f) (some (n, k)) body with
-    | error e => simp [thenSteps, lift2]
-    | ok o => simp [thenSteps, lift2]
-
-/-- behind an executed `extends` (`parent_instructions` is set): text is discarded, blocks are
-    skipped, a further executed `extends` is an error — for every callback and reader -/
-theorem post_silent (rd : Rd) (rec : Rec) (p : List Item) (post : List Item)
-    (h : post.all Item.isPost = true) (st : St) :
-    stepItems rd rec (some p) post st =
-      if hasExecExtends post then .error [.invalidOperation] else .ok ([], st, some p) := by
-  induction post with
-  | nil => simp [stepItems, hasExecExtends]
-  | cons it rest ih =>
-    simp only [List.all_cons, Bool.and_eq_true] at h
-    have ih := ih h.2
-    cases it with
+        simp only [Bool.false_eq_true, if_false]
+        have hp : parent.isSome = false := by
+          cases hps : parent.isSome <;> simp_all
+        have hok : itemOK cur blk (.setSelf v m) = true := by
+          rcases hit1 with h1 | h1
+          · exact h1
+          · rw [hp] at h1; cases h1.1
+        simp only [itemOK, Bool.and_eq_true] at hok
+        obtain ⟨hb, hrank⟩ := hok
+        subst hb
+        have hm : ∀ n, cur = some n → n < m := by
+          intro n hn; subst hn; simpa using hrank
+        rw [callBlock_sim h D hwf cur k m false outer st hg hm]
+        cases specBlock (specAll env ctx f) D false outer m st.frames with
+        | error e => rfl
+        | ok r =>
+          obtain ⟨o, fs'⟩ := r
+          simp only [liftS]
+          rw [hc] at hG
+          exact cont_finish (.ok ([], store fs' v (.str (String.join o)))) st _ _ _ hG
+    | «extends» exec t =>
+      simp only [stepItems, specItems]
+      cases exec with
+      | false =>
+        simp only [Bool.not_false, if_true]
+        exact cont_finish (.ok ([], st.frames)) st _ _ _ hG
+      | true =>
+        have hp : parent.isSome = true := by
+          rcases hit1 with h1 | h1
+          · simp [itemOK] at h1
+          · exact h1.1
+        simp [hp, thenStepsF]
+    | incl names ign =>
+      simp only [stepItems, specItems]
+      rw [include_sim h henv rcur _ ign outer names false st]
+      exact cont_finish _ st _ _ _ hG
+    | importAs t v =>
+      simp only [stepItems, specItems]
+      cases hpf : pushFails outer st.frames with
+      | true => simp [thenStepsF]
+      | false =>
+        simp only [Bool.false_eq_true, if_false]
+        rw [include_sim h henv rcur false false outer [t] false { st with frames := st.frames ++ [[]] }]
+        cases specInclude env (specAll env ctx f) false false outer [t] false (st.frames ++ [[]]) with
+        | error e => rfl
+        | ok r =>
+          obtain ⟨o, fs'⟩ := r
+          simp only [liftS]
+          exact cont_finish (.ok ([], store (fs'.take st.frames.length) v (.module (dedupKeys (topFrame fs'))))) st _ _ _ hG
+    | fromImport t name alias =>
+      simp only [stepItems, specItems]
+      cases hpf : pushFails outer st.frames with
+      | true => simp [thenStepsF]
+      | false =>
+        simp only [Bool.false_eq_true, if_false]
+        rw [include_sim h henv rcur true false outer [t] false { st with frames := st.frames ++ [[]] }]
+        cases specInclude env (specAll env ctx f) true false outer [t] false (st.frames ++ [[]]) with
+        | error e => rfl
+        | ok r =>
+          obtain ⟨o, fs'⟩ := r
+          simp only [liftS]
+          exact cont_finish (.ok ([], store (fs'.take st.frames.length) alias ((lookupVal name (topFrame fs')).getD .undef))) st _ _ _ hG
+    | loop v vals body =>
+      simp only [stepItems, specItems]
+      cases hx : body.any isExtends with
+      | true => simp [thenStepsF]
+      | false =>
+        simp only [Bool.false_eq_true, if_false]
+        cases hpf : pushFails outer st.frames with
+        | true => simp [thenStepsF]
+        | false =>
+          simp only [Bool.false_eq_true, if_false]
+          have hok : itemsOK cur blk body = true := by
+            rcases hit1 with h1 | h1
+            · simpa [itemOK] using h1
+            · simp [isExtends] at h1
+          have hrun : ∀ fs : List Frame,
+              evalImpl env ctx f rcur (disc0 || parent.isSome) (ext0 || parent.isSome) outer body
+                  { ({ st with frames := st.frames ++ [[]] } : St) with frames := fs } =
+                liftS ((specAll env ctx f).list D (cur.map (fun n => (n, k))) (disc0 || parent.isSome)
+                  (ext0 || parent.isSome) outer body fs)
+                  { ({ st with frames := st.frames ++ [[]] } : St) with frames := fs } := by
+            intro fs
+            exact h.list D hwf cur blk k rcur _ _ outer body _ hrc hblk hok (hg.setFrames fs)
+          rw [loop_sim _ _ { st with frames := st.frames ++ [[]] } hrun v vals st.frames.length]
+          cases specLoop ((specAll env ctx f).list D (cur.map (fun n => (n, k))) (disc0 || parent.isSome)
+              (ext0 || parent.isSome) outer body) v vals st.frames.length (st.frames ++ [[]]) with
+          | error e => rfl
+          | ok r =>
+            obtain ⟨o, fs'⟩ := r
+            simp only [liftS]
+            exact cont_finish (.ok (o, fs'.take st.frames.length)) st _ _ _ hG
+    | inMacro m arg val body =>
+      simp only [stepItems, specItems]
+      cases hx : body.any isExtends with
+      | true => simp [thenStepsF]
+      | false =>
+        simp only [Bool.false_eq_true, if_false]
+        by_cases hd : outer + (store st.frames m Val.opaque).length + MACRO_COST + 2 > LIMIT
+        · simp [hd, thenStepsF]
+        · simp only [hd, if_false]
+          have hok : itemsOK none false body = true := by
+            rcases hit1 with h1 | h1
+            · simpa [itemOK] using h1
+            · simp [isExtends] at h1
+          have hg2 : Good D none false k
+              { st with frames := [[], [(arg, Val.str val)]] } :=
+            ⟨hg.blocks, (by intro n hn; cases hn), (by intro hb; cases hb)⟩
+          have := h.list D hwf none false k none false false
+            (outer + (store st.frames m Val.opaque).length + MACRO_COST) body _ (by intro n hn; cases hn) (by intro hc; cases hc) hok hg2
+          simp only [Option.map_none] at this
+          rw [this]
+          cases (specAll env ctx f).list D none false false
+              (outer + (store st.frames m Val.opaque).length + MACRO_COST) body [[], [(arg, Val.str val)]] with
+          | error e => rfl
+          | ok r =>
+            obtain ⟨o, fs'⟩ := r
+            simp only [liftS]
+            exact cont_finish (.ok (if (disc0 || parent.isSome) = true then [] else o, store st.frames m .opaque)) st _ _ _ hG
     | text s =>
-      rw [show hasExecExtends (Item.text s :: rest) = hasExecExtends rest from rfl]
-      simp only [stepItems, Res.andThen, ih, Option.isSome_some, Bool.or_true, if_true]
-      cases hasExecExtends rest <;> simp
-    | callBlock m =>
-      rw [show hasExecExtends (Item.callBlock m :: rest) = hasExecExtends rest from rfl]
-      simp only [stepItems, Res.andThen, ih, Option.isSome_some, Bool.or_true, if_true]
-      cases hasExecExtends rest <;> simp
-    | «extends» exec t =>
-      cases exec with
-      | true => simp [stepItems, hasExecExtends]
-      | false =>
-        rw [show hasExecExtends (Item.extends false t :: rest) = hasExecExtends rest from rfl]
-        simp only [stepItems, Res.andThen, ih, Bool.not_false, if_true]
-        cases hasExecExtends rest <;> simp
-    | _ => simp [Item.isPost] at h
+      simp only [stepItems, specItems]
+      cases varItem ctx (disc0 || parent.isSome) _ st.frames with
+      | none => rfl
+      | some r =>
+        cases r with
+        | error e => rfl
+        | ok r2 =>
+          obtain ⟨o, fs'⟩ := r2
+          exact cont_finish (.ok (o, fs')) st _ _ _ hG
+    | emitVar v =>
+      simp only [stepItems, specItems]
+      cases varItem ctx (disc0 || parent.isSome) _ st.frames with
+      | none => rfl
+      | some r =>
+        cases r with
+        | error e => rfl
+        | ok r2 =>
+          obtain ⟨o, fs'⟩ := r2
+          exact cont_finish (.ok (o, fs')) st _ _ _ hG
+    | setVar v s =>
+      simp only [stepItems, specItems]
+      cases varItem ctx (disc0 || parent.isSome) _ st.frames with
+      | none => rfl
+      | some r =>
+        cases r with
+        | error e => rfl
+        | ok r2 =>
+          obtain ⟨o, fs'⟩ := r2
+          exact cont_finish (.ok (o, fs')) st _ _ _ hG
+    | defMacro v s =>
+      simp only [stepItems, specItems]
+      cases varItem ctx (disc0 || parent.isSome) _ st.frames with
+      | none => rfl
+      | some r =>
+        cases r with
+        | error e => rfl
+        | ok r2 =>
+          obtain ⟨o, fs'⟩ := r2
+          exact cont_finish (.ok (o, fs')) st _ _ _ hG
+    | emitAttr v a =>
+      simp only [stepItems, specItems]
+      cases varItem ctx (disc0 || parent.isSome) _ st.frames with
+      | none => rfl
+      | some r =>
+        cases r with
+        | error e => rfl
+        | ok r2 =>
+          obtain ⟨o, fs'⟩ := r2
+          exact cont_finish (.ok (o, fs')) st _ _ _ hG
+    | emitKeys v =>
+      simp only [stepItems, specItems]
+      cases varItem ctx (disc0 || parent.isSome) _ st.frames with
+      | none => rfl
+      | some r =>
+        cases r with
+        | error e => rfl
+        | ok r2 =>
+          obtain ⟨o, fs'⟩ := r2
+          exact cont_finish (.ok (o, fs')) st _ _ _ hG
+    | callVar v =>
+      simp only [stepItems, specItems]
+      cases varItem ctx (disc0 || parent.isSome) _ st.frames with
+      | none => rfl
+      | some r =>
+        cases r with
+        | error e => rfl
+        | ok r2 =>
+          obtain ⟨o, fs'⟩ := r2
+          exact cont_finish (.ok (o, fs')) st _ _ _ hG
+    | required =>
+      simp only [stepItems, specItems]
+      cases varItem ctx (disc0 || parent.isSome) _ st.frames with
+      | none => rfl
+      | some r =>
+        cases r with
+        | error e => rfl
+        | ok r2 =>
+          obtain ⟨o, fs'⟩ := r2
+          exact cont_finish (.ok (o, fs')) st _ _ _ hG
 
-theorem isPlain_okFor (it : Item) (h : it.isPlain = true) : okFor none it = true := by
-  cases it <;> simp_all [Item.isPlain, okFor]
-  case «extends» exec t => cases exec <;> simp_all [Item.isPlain, okFor]
+theorem itemsOK_iff (cur : Option Nat) (blk : Bool) (items : List Item) :
+    itemsOK cur blk items = true ↔ ∀ it ∈ items, itemOK cur blk it = true := by
+  induction items with
+  | nil => simp [itemsOK]
+  | cons it rest ih => simp [itemsOK, ih]
 
 theorem splitExtends_none (layout : List Item) (hs : splitExtends layout = none)
-    (hok : layoutOK layout = true) : layout.all (okFor none) = true := by
+    (hok : layoutOK layout = true) : ∀ it ∈ layout, itemOK none true it = true := by
   induction layout with
-  | nil => rfl
+  | nil => intro it h; cases h
   | cons it rest ih =>
     cases it with
     | «extends» exec t =>
@@ -259,22 +569,27 @@ theorem splitExtends_none (layout : List Item) (hs : splitExtends layout = none)
       | true => simp [splitExtends] at hs
       | false =>
         simp only [splitExtends] at hs
-        simp only [layoutOK, Item.isPlain, Bool.true_and] at hok
+        simp only [layoutOK, Bool.and_eq_true] at hok
         split at hs
-        · simp [okFor, ih (by assumption) hok]
+        · intro it' h'
+          rcases List.mem_cons.1 h' with rfl | h'
+          · exact hok.1
+          · exact ih (by assumption) hok.2 it' h'
         · simp at hs
     | _ =>
       simp only [splitExtends] at hs
       simp only [layoutOK, Bool.and_eq_true] at hok
       split at hs
-      · simp only [List.all_cons, Bool.and_eq_true]
-        exact ⟨isPlain_okFor _ hok.1, ih (by assumption) hok.2⟩
+      · intro it' h'
+        rcases List.mem_cons.1 h' with rfl | h'
+        · exact hok.1
+        · exact ih (by assumption) hok.2 it' h'
       · simp at hs
 
 theorem splitExtends_some (layout pre post : List Item) (t : Nat)
     (hs : splitExtends layout = some (pre, t, post)) (hok : layoutOK layout = true) :
-    layout = pre ++ .extends true t :: post ∧ pre.all (okFor none) = true ∧
-      post.all Item.isPost = true := by
+    layout = pre ++ .extends true t :: post ∧ (∀ it ∈ pre, itemOK none true it = true) ∧
+      (∀ it ∈ post, itemOK none true it = true ∨ isExtends it = true) := by
   induction layout generalizing pre with
   | nil => simp [splitExtends] at hs
   | cons it rest ih =>
@@ -284,18 +599,22 @@ theorem splitExtends_some (layout pre post : List Item) (t : Nat)
       | true =>
         simp only [splitExtends, Option.some.injEq, Prod.mk.injEq] at hs
         obtain ⟨rfl, rfl, rfl⟩ := hs
-        simp only [layoutOK] at hok
-        simp [hok]
+        simp only [layoutOK, List.all_eq_true, Bool.or_eq_true] at hok
+        exact ⟨rfl, (by intro it h; cases h), fun it h => (hok it h).symm⟩
       | false =>
         simp only [splitExtends] at hs
-        simp only [layoutOK, Item.isPlain, Bool.true_and] at hok
+        simp only [layoutOK, Bool.and_eq_true] at hok
         split at hs
         · simp at hs
         · rename_i pre' t'' post' heq
           simp only [Option.some.injEq, Prod.mk.injEq] at hs
           obtain ⟨rfl, rfl, rfl⟩ := hs
-          obtain ⟨h1, h2, h3⟩ := ih pre' heq hok
-          exact ⟨by rw [h1]; rfl, by simp [okFor, h2], h3⟩
+          obtain ⟨h1, h2, h3⟩ := ih pre' heq hok.2
+          refine ⟨by rw [h1]; rfl, ?_, h3⟩
+          intro it' h'
+          rcases List.mem_cons.1 h' with rfl | h'
+          · exact hok.1
+          · exact h2 it' h'
     | _ =>
       simp only [splitExtends] at hs
       simp only [layoutOK, Bool.and_eq_true] at hok
@@ -306,14 +625,10 @@ theorem splitExtends_some (layout pre post : List Item) (t : Nat)
         obtain ⟨rfl, rfl, rfl⟩ := hs
         obtain ⟨h1, h2, h3⟩ := ih pre' heq hok.2
         refine ⟨by rw [h1]; rfl, ?_, h3⟩
-        simp only [List.all_cons, Bool.and_eq_true]
-        exact ⟨isPlain_okFor _ hok.1, h2⟩
-
-theorem prepare_eq_defs (env : Env) (main : Nat) (T : Template) (h : env[main]? = some T) :
-    prepare T.blocks = defs env [main] := by
-  funext n
-  simp only [prepare, defs, List.filterMap_cons, List.filterMap_nil, blockOf, h]
-  cases lookupBlock n T.blocks <;> rfl
+        intro it' h'
+        rcases List.mem_cons.1 h' with rfl | h'
+        · exact hok.1
+        · exact h2 it' h'
 
 theorem appendBlocks_defs (env : Env) (chain : List Nat) (t : Nat) (T : Template)
     (h : env[t]? = some T) :
@@ -334,7 +649,7 @@ theorem lookupBlock_mem (n : Nat) (bs : List (Nat × List Item)) (b : List Item)
     · simp only [hm, if_true, Option.some.injEq] at h; subst h; subst hm; simp
     · simp only [hm, if_false] at h; exact List.mem_cons_of_mem _ (ih h)
 
-theorem WF_defs (env : Env) (hcore : CoreEnv env) (chain : List Nat) : WF (defs env chain) := by
+theorem WF_defs (env : Env) (henv : EnvOK env) (chain : List Nat) : WF (defs env chain) := by
   intro n k body hb
   have hmem : body ∈ defs env chain n := List.mem_of_getElem? hb
   simp only [defs, List.mem_filterMap] at hmem
@@ -345,92 +660,116 @@ theorem WF_defs (env : Env) (hcore : CoreEnv env) (chain : List Nat) : WF (defs 
   | some T =>
     simp only [hT] at hi
     have hTm : T ∈ env := List.mem_of_getElem? hT
-    have := hcore T hTm
+    have := henv T hTm
     simp only [templateOK, Bool.and_eq_true, List.all_eq_true] at this
     exact this.2 (n, body) (lookupBlock_mem n T.blocks body hi)
 
-def outOf (r : Res) : Except Err (List String) :=
-  match r with | .ok (o, _) => .ok o | .error e => .error e
+theorem EnvOK.layout {env : Env} (henv : EnvOK env) {t : Nat} {T : Template} (hT : env[t]? = some T) :
+    layoutOK T.layout = true := by
+  have := henv T (List.mem_of_getElem? hT)
+  simp only [templateOK, Bool.and_eq_true] at this
+  exact this.1
 
-/-- state of the driver after it loaded `chain` (most-derived template first) -/
-structure ChainSt (env : Env) (chain : List Nat) (st : St) : Prop where
-  blocks : st.blocks = defs env chain
-  depth : ∀ m, st.depth m = 0
-  loaded : ∀ t, t ∈ st.loaded ↔ t ∈ chain.tail
+theorem hyp_zero (env : Env) (ctx : Frame) : Hyp env ctx 0 :=
+  ⟨by intros; simp [evalImpl, specAll, liftS], by intros; simp [evalImpl, specAll, outFr]⟩
 
-theorem sim_template (env : Env) (ctx : Frame) (hcore : CoreEnv env) :
-    ∀ f chain layout st, ChainSt env chain st → layoutOK layout = true → chain ≠ [] →
-      outOf (evalImpl env ctx f none false layout st) = specTemplate env f chain layout := by
-  intro f
-  induction f with
-  | zero => intro chain layout st _ _ _; simp [evalImpl, specTemplate, outOf]
-  | succ f ih =>
-    intro chain layout st hst hlay hne
-    have hwf := WF_defs env hcore chain
-    have hP := sim_body env ctx (defs env chain) hwf f
-    have hg : Good (defs env chain) none 0 st :=
-      ⟨hst.blocks, (by intro n hn; cases hn), fun m _ => hst.depth m⟩
-    simp only [evalImpl, specTemplate]
+theorem hyp_succ (env : Env) (ctx : Frame) (henv : EnvOK env) (f : Nat) (h : Hyp env ctx f) :
+    Hyp env ctx (f + 1) := by
+  constructor
+  · intro D hwf cur blk k rcur disc ext outer items st hrc hb hok hg
+    · have hp := sim_prefix h henv D hwf cur blk k rcur disc ext outer none hrc hb items
+        (fun it hm => Or.inl ((itemsOK_iff cur blk items).1 hok it hm)) [] st hg
+      simp only [List.append_nil, Option.isSome_none, Bool.or_false, stepItems] at hp
+      simp only [evalImpl, hp, specAll]
+      cases specItems env ctx (specAll env ctx f) D (cur.map fun n => (n, k)) disc ext outer items st.frames with
+      | error e => simp [thenStepsF, liftS]
+      | ok r => obtain ⟨o, fs⟩ := r; simp [thenStepsF, liftS]
+  · intro chain layout st rcur disc outer hst hlay hne
+    have hwf := WF_defs env henv chain
+    have hg : Good (defs env chain) none true 0 st :=
+      ⟨hst.blocks, (by intro n hn; cases hn), fun _ m _ => hst.depth m⟩
+    simp only [evalImpl, specAll, specChain]
     cases hs : splitExtends layout with
     | none =>
-      have h := sim_prefix env ctx _ f hP none 0 layout (splitExtends_none layout hs hlay) [] st hg
-      simp only [List.append_nil, Option.map_none, stepItems] at h
-      rw [h]
-      cases specItems (defs env chain) (specBody (defs env chain) f) none layout <;> simp [thenSteps, outOf]
+      have hp := sim_prefix h henv _ hwf none true 0 rcur disc false outer none
+        (by intro n hn; cases hn) (by intro hc; cases hc) layout
+        (fun it hm => Or.inl (splitExtends_none layout hs hlay it hm)) [] st hg
+      simp only [List.append_nil, Option.map_none, Option.isSome_none, Bool.or_false, stepItems] at hp
+      rw [hp]
+      cases specItems env ctx (specAll env ctx f) (defs env chain) none disc false outer layout st.frames with
+      | error e => simp [thenStepsF, outFr]
+      | ok r => obtain ⟨o, fs⟩ := r; simp [thenStepsF, outFr]
     | some r =>
       obtain ⟨pre, t, post⟩ := r
       obtain ⟨hl, hpre, hpost⟩ := splitExtends_some layout pre post t hs hlay
-      have h := sim_prefix env ctx _ f hP none 0 pre hpre (.extends true t :: post) st hg
-      simp only [Option.map_none] at h
-      rw [hl, h]
+      have hp := sim_prefix h henv _ hwf none true 0 rcur disc false outer none
+        (by intro n hn; cases hn) (by intro hc; cases hc) pre
+        (fun it hm => Or.inl (hpre it hm)) (.extends true t :: post) st hg
+      simp only [Option.map_none, Option.isSome_none, Bool.or_false] at hp
+      rw [hl, hp]
       simp only []
-      cases specItems (defs env chain) (specBody (defs env chain) f) none pre with
-      | error e => simp [thenSteps, outOf]
-      | ok o =>
-        simp only [stepItems, Bool.not_true, Bool.false_eq_true, if_false, Option.isSome_none, loadBlocks]
+      cases specItems env ctx (specAll env ctx f) (defs env chain) none disc false outer pre st.frames with
+      | error e => simp [thenStepsF, outFr]
+      | ok r1 =>
+        obtain ⟨o, fs1⟩ := r1
+        simp only [thenStepsF, stepItems, Bool.not_true, Bool.false_eq_true, if_false, Option.isSome_none, loadBlocks]
         by_cases hmem : t ∈ st.loaded
         · have : t ∈ chain.tail := (hst.loaded t).1 hmem
-          simp [hmem, this, thenSteps, outOf]
+          simp [hmem, this, outFr]
         · have hmem' : t ∉ chain.tail := fun h' => hmem ((hst.loaded t).2 h')
           simp only [hmem, hmem', if_false]
           cases hT : env[t]? with
-          | none => simp [thenSteps, outOf]
+          | none => simp [outFr]
           | some T =>
-            simp only [post_silent _ _ _ post hpost]
-            by_cases hx : hasExecExtends post = true
-            · simp [hx, thenSteps, outOf]
-            · have hx' : hasExecExtends post = false := by simpa using hx
-              simp only [hx', Bool.false_eq_true, if_false, thenSteps, List.append_nil]
-              have hst' : ChainSt env (chain ++ [t])
-                  { st with loaded := t :: st.loaded, blocks := appendBlocks st.blocks T.blocks } := by
-                refine ⟨?_, hst.depth, ?_⟩
-                · simp only [hst.blocks]; exact appendBlocks_defs env chain t T hT
-                · intro t'
-                  cases chain with
-                  | nil => exact absurd rfl hne
-                  | cons c cs =>
-                    simp only [List.cons_append, List.tail_cons, List.mem_cons, List.mem_append,
-                      List.mem_singleton]
-                    have := hst.loaded t'
-                    simp only [List.tail_cons] at this
-                    rw [this]; simp [or_comm]
-              have hTok : layoutOK T.layout = true := by
-                have := hcore T (List.mem_of_getElem? hT)
-                simp only [templateOK, Bool.and_eq_true] at this
-                exact this.1
-              have := ih (chain ++ [t]) T.layout _ hst' hTok (by simp)
-              rw [← this]
+            simp only []
+            have hst1 : ∀ fs, ChainSt env (chain ++ [t])
+                { blocks := appendBlocks st.blocks T.blocks, depth := st.depth, loaded := t :: st.loaded,
+                  frames := fs } := by
+              intro fs
+              refine ⟨?_, hst.depth, ?_⟩
+              · simp only [hst.blocks]; exact appendBlocks_defs env chain t T hT
+              · intro t'
+                cases chain with
+                | nil => exact absurd rfl hne
+                | cons c cs =>
+                  simp only [List.cons_append, List.tail_cons, List.mem_cons, List.mem_append]
+                  have := hst.loaded t'
+                  simp only [List.tail_cons] at this
+                  rw [this]; simp [or_comm]
+            have hg1 : Good (defs env (chain ++ [t])) none true 0
+                { blocks := appendBlocks st.blocks T.blocks, depth := st.depth, loaded := t :: st.loaded,
+                  frames := fs1 } :=
+              ⟨(hst1 fs1).blocks, (by intro n hn; cases hn), fun _ m _ => hst.depth m⟩
+            have hp2 := sim_prefix h henv _ (WF_defs env henv (chain ++ [t])) none true 0 rcur disc false outer
+              (some T.layout) (by intro n hn; cases hn) (by intro hc; cases hc) post
+              (fun it hm => (hpost it hm).elim Or.inl (fun hx => Or.inr ⟨rfl, hx⟩)) [] _ hg1
+            simp only [List.append_nil, Option.map_none, Option.isSome_some, Bool.or_true, stepItems] at hp2
+            rw [hp2]
+            cases specItems env ctx (specAll env ctx f) (defs env (chain ++ [t])) none true true outer post fs1 with
+            | error e => simp [thenStepsF, outFr]
+            | ok r2 =>
+              obtain ⟨o2, fs2⟩ := r2
+              simp only [thenStepsF, List.append_nil]
+              have hc := h.chain (chain ++ [t]) T.layout _ rcur disc outer (hst1 fs2) (henv.layout hT) (by simp)
+              simp only [] at hc
+              rw [← hc]
               have key : ∀ E : Res,
-                  outOf (match E with
+                  outFr (match E with
                     | .error e => .error e
-                    | .ok (o', st'') => .ok (o ++ o', st'')) =
-                  (match outOf E with
+                    | .ok (o', st'') => .ok (o ++ o2 ++ o', st'')) =
+                  (match outFr E with
                     | .error e => .error e
-                    | .ok o' => .ok (o ++ o')) := by
+                    | .ok (o3, fs3) => .ok (o ++ o2 ++ o3, fs3)) := by
                 intro E
                 cases E with
                 | error e => rfl
                 | ok r => rfl
               exact key _
+
+
+/-- driver = spec at every nesting fuel -/
+theorem hyp_all (env : Env) (ctx : Frame) (henv : EnvOK env) : ∀ f, Hyp env ctx f
+  | 0 => hyp_zero env ctx
+  | f + 1 => hyp_succ env ctx henv f (hyp_all env ctx henv f)
 
 end MJ.Blocks
